@@ -154,7 +154,7 @@ def run_function(fn, mem, regions):
     entry = order[0]
     pvals = {}
     for i, (n, t) in enumerate(blocks[entry]["params"]):
-        pvals[n] = ("ptr", regions.get(i, f"p{i}"), 0) if t == "i64" and i in regions else z3.BitVec(f"arg{i}", TY[t])
+        pvals[n] = ("ptr", regions.get(i, f"p{i}"), 0, None) if t == "i64" and i in regions else z3.BitVec(f"arg{i}", TY[t])
     incoming[entry].append((z3.BoolVal(True), [pvals[n] for n, _ in blocks[entry]["params"]], mem))
     # topological order over the CFG (reject loops)
     succ = {}
@@ -209,7 +209,7 @@ def run_function(fn, mem, regions):
             env[n] = v
         m = m.copy()
         for ins in blocks[b]["insts"]:
-            t = exec_inst(ins, env, m)
+            t = exec_inst(ins, env, m, cond)
             if t is None:
                 continue
             kind = t[0]
@@ -259,21 +259,59 @@ def as_bv(x):
     return x
 
 
+CTX = dict(cells={}, oob=[])   # cells: region -> [(offset, nbytes)] from the layout; oob: address-range obligations
+
+
 def addr(env, tok):
     m = re.match(r"^(v\d+)(?:([+-])(\d+))?$", tok.strip())
     if not m:
         raise Unsupported(f"address {tok}")
     base = val(env, m.group(1))
     if not isinstance(base, tuple):
-        raise Unsupported("computed address (dynamic index)")
+        raise Unsupported("address is not derived from a pointer parameter")
     off = int(m.group(3) or 0) * (-1 if m.group(2) == "-" else 1)
-    return base[1], base[2] + off
+    return base[1], base[2] + off, base[3]
+
+
+def sym_load(mem, region, off, sym, n, path):
+    if sym is None:
+        return mem.load(region, off, n)
+    cands = [(o, nb) for (o, nb) in CTX["cells"].get(region, []) if nb >= n]
+    if not cands:
+        raise Unsupported("computed address without candidate cells")
+    a = bv(off, 64) + sym
+    res = z3.BitVec(f"oob_{len(CTX['oob'])}", 8 * n)
+    hits = []
+    for (o, _) in cands:
+        c = a == bv(o, 64)
+        hits.append(c)
+        res = z3.If(c, mem.load(region, o, n), res)
+    CTX["oob"].append(z3.Implies(path, z3.Or(*hits)))
+    return res
+
+
+def sym_store(mem, region, off, sym, v, n, path):
+    if sym is None:
+        mem.store(region, off, v, n)
+        return
+    cands = [(o, nb) for (o, nb) in CTX["cells"].get(region, []) if nb >= n]
+    if not cands:
+        raise Unsupported("computed address without candidate cells")
+    a = bv(off, 64) + sym
+    hits = []
+    for (o, _) in cands:
+        c = a == bv(o, 64)
+        hits.append(c)
+        for i in range(n):
+            mem.b[(region, o + i)] = z3.If(c, z3.Extract(8 * i + 7, 8 * i, v), mem.byte(region, o + i))
+    CTX["oob"].append(z3.Implies(path, z3.Or(*hits)))
 
 
 FLAGS = {"notrap", "aligned", "readonly", "little", "big", "can_move", "heap", "table", "vmctx", "checked"}
 
 
-def exec_inst(ins, env, mem):
+def exec_inst(ins, env, mem, path=None):
+    path = z3.BoolVal(True) if path is None else path
     if ins == "return":
         return ("return",)
     if ins.startswith("jump "):
@@ -306,22 +344,22 @@ def exec_inst(ins, env, mem):
 
     # ---- memory
     if op in ("load", "uload8", "uload16", "uload32", "sload8", "sload16", "sload32"):
-        region, off = addr(env, args[0])
+        region, off, sym = addr(env, args[0])
         if op == "load":
             if ty not in TY:
                 raise Unsupported(f"load type {ty}")
-            setr(mem.load(region, off, TY[ty] // 8))
+            setr(sym_load(mem, region, off, sym, TY[ty] // 8, path))
         else:
             n = int(op[5:]) // 8
             rw = TY.get(ty or "i64")
-            v = mem.load(region, off, n)
+            v = sym_load(mem, region, off, sym, n, path)
             setr(z3.ZeroExt(rw - 8 * n, v) if op[0] == "u" else z3.SignExt(rw - 8 * n, v))
         return None
     if op in ("store", "istore8", "istore16", "istore32"):
         v = as_bv(val(env, args[0]))
-        region, off = addr(env, args[1])
+        region, off, sym = addr(env, args[1])
         n = v.size() // 8 if op == "store" else int(op[6:]) // 8
-        mem.store(region, off, v, n)
+        sym_store(mem, region, off, sym, v, n, path)
         return None
     # ---- constants
     if op == "iconst":
@@ -335,17 +373,23 @@ def exec_inst(ins, env, mem):
         env[results[0]] = z3.If(CC[cc](a, b), bv(1, 8), bv(0, 8))
         return None
     a0 = val(env, args[0]) if args and re.match(r"^v\d+$", args[0]) else None
+    a1 = val(env, args[1]) if len(args) > 1 and re.match(r"^v\d+$", args[1]) else None
+    if op == "iadd" and isinstance(a1, tuple) and not isinstance(a0, tuple):
+        a0, a1 = a1, a0
     if isinstance(a0, tuple):
         if op == "iadd_imm":
-            setr((a0[0], a0[1], a0[2] + parse_int(args[1])))
+            setr((a0[0], a0[1], a0[2] + parse_int(args[1]), a0[3]))
             return None
         if op == "iadd":
-            b = val(env, args[1])
-            bs = z3.simplify(as_bv(b))
+            if isinstance(a1, tuple):
+                raise Unsupported("pointer + pointer")
+            bs = z3.simplify(as_bv(a1))
             if z3.is_bv_value(bs):
-                setr((a0[0], a0[1], a0[2] + bs.as_signed_long()))
-                return None
-            raise Unsupported("computed address (dynamic index)")
+                setr((a0[0], a0[1], a0[2] + bs.as_signed_long(), a0[3]))
+            else:
+                b64 = bs if bs.size() == 64 else z3.ZeroExt(64 - bs.size(), bs)
+                setr((a0[0], a0[1], a0[2], b64 if a0[3] is None else a0[3] + b64))
+            return None
         if op == "ireduce":
             setr(z3.BitVec(f"ptrbits_{a0[1]}", TY[ty]))
             return None
@@ -476,17 +520,23 @@ def check_design(clif_text, layout, rtl, timeout_ms=20000):
     funcs = parse_functions(clif_text)
     if not funcs:
         raise Unsupported("no CLIF function (design not JIT-compiled)")
+    CTX["cells"] = {"comb": [(e["off"], v["native_bytes"]) for v in layout["vars"] for e in v["elems"] if e["kind"] == "comb"]}
+    CTX["oob"] = []
     R = rtl_terms(rtl)
     vars_by_port = {v["port"]: v for v in layout["vars"] if v.get("port")}
     mem = Mem()
     assumptions = list(R["asm"])
     for i in rtl["inputs"]:
         v = vars_by_port.get(i["name"])
-        if not v or len(v["elems"]) != 1 or v["elems"][0]["kind"] != "comb":
-            raise Unsupported(f"input {i['name']} not a single comb cell")
-        nb, w = v["native_bytes"], i["width"]
+        if not v or any(e["kind"] != "comb" for e in v["elems"]):
+            raise Unsupported(f"input {i['name']} not stored in comb cells")
+        nb, ew, n = v["native_bytes"], v["width"], len(v["elems"])
+        if ew * n != i["width"]:
+            raise Unsupported(f"input {i['name']}: layout {n}x{ew} bits vs {i['width']} RTL bits")
         x = R["in"][i["name"]]
-        mem.store("comb", v["elems"][0]["off"], z3.ZeroExt(8 * nb - w, x) if 8 * nb > w else x, nb)
+        for k, e in enumerate(v["elems"]):
+            xe = z3.Extract((k + 1) * ew - 1, k * ew, x) if n > 1 else x
+            mem.store("comb", e["off"], z3.ZeroExt(8 * nb - ew, xe) if 8 * nb > ew else xe, nb)
     # every other cell holds a previous (clean) value of its variable: bits above the declared width
     # are zero -- the buffers start zeroed and every store is width-masked or narrower than the cell
     input_names = {i["name"] for i in rtl["inputs"]}
@@ -502,18 +552,23 @@ def check_design(clif_text, layout, rtl, timeout_ms=20000):
     for fn in funcs:
         mem = run_function(fn, mem, {0: "ff", 1: "comb"})
     diffs = []
+    def out_value(name, width, m):
+        v = vars_by_port.get(name)
+        if not v or any(e["kind"] != "comb" for e in v["elems"]):
+            raise Unsupported(f"output {name} not stored in comb cells")
+        nb, ew, n = v["native_bytes"], v["width"], len(v["elems"])
+        if ew * n != width:
+            raise Unsupported(f"output {name}: layout {n}x{ew} bits vs {width} RTL bits")
+        parts = [z3.Extract(ew - 1, 0, m.load("comb", e["off"], nb)) for e in v["elems"]]
+        return z3.Concat(*reversed(parts)) if n > 1 else parts[0]
     for o in rtl["outputs"]:
-        v = vars_by_port.get(o["name"])
-        if not v or len(v["elems"]) != 1 or v["elems"][0]["kind"] != "comb":
-            raise Unsupported(f"output {o['name']} not a single comb cell")
-        nb, w = v["native_bytes"], o["width"]
-        got = mem.load("comb", v["elems"][0]["off"], nb)
-        want = R["out"][o["name"]]
-        diffs.append((o["name"], z3.Extract(w - 1, 0, got) != want))
+        diffs.append((o["name"], out_value(o["name"], o["width"], mem) != R["out"][o["name"]]))
     s = z3.Solver()
     s.set("timeout", timeout_ms)
     for a in assumptions:
         s.add(a)
+    # computed addresses must hit a cell of some variable (the JIT clamps dynamic indices)
+    diffs += [(f"address-in-range#{k}", z3.Not(o)) for k, o in enumerate(CTX["oob"])]
     s.add(z3.Or(*[d for _, d in diffs]))
     r = s.check()
     if r == z3.unsat:
@@ -524,9 +579,10 @@ def check_design(clif_text, layout, rtl, timeout_ms=20000):
     bad = [n for n, d in diffs if z3.is_true(m.eval(d, model_completion=True))]
     ins = {i["name"]: format(m.eval(R["in"][i["name"]], model_completion=True).as_long(), "x") for i in rtl["inputs"]}
     port = bad[0]
-    v = vars_by_port[port]
+    if port not in vars_by_port:
+        return dict(verdict="differs", port=port, inputs=ins, jit_value="?", rtl_value="?", queries=1)
     w = next(o["width"] for o in rtl["outputs"] if o["name"] == port)
-    got = m.eval(z3.Extract(w - 1, 0, mem.load("comb", v["elems"][0]["off"], v["native_bytes"])), model_completion=True)
+    got = m.eval(out_value(port, w, mem), model_completion=True)
     want = m.eval(R["out"][port], model_completion=True)
     return dict(verdict="differs", port=port, inputs=ins, jit_value=format(got.as_long(), "x"),
                 rtl_value=format(want.as_long(), "x"), queries=1)
